@@ -254,6 +254,11 @@ func genRPC(g *hx.Gen, out *hx.Out) {
 			emit("wait", append([]string{strconv.Itoa([]int{0, 11, 13, 35, 39, 40, 238, 255}[g.Intn(8)])}, setup...)...)
 		case 6:
 			req := append([]byte{[]byte{20, 21, 26, 27, 200, 254, 0, 255, 40}[g.Intn(9)]}, g.Bytes(g.Intn(20))...)
+			if g.Intn(3) == 0 {
+				// scripted reply bytes: every agent status byte alone and with a body, empty, long
+				reply := [][]byte{{5}, {6}, {}, {5, 0, 0, 0, 0}, {12, 0, 0, 0, 0}, {28}, {0}, {255}, {30, 5}, g.Bytes(g.Intn(40))}[g.Intn(10)]
+				req = append([]byte{0xFD}, reply...)
+			}
 			emit("forward", append([]string{hx.Hex(req)}, setup...)...)
 		case 7, 8:
 			n := []int{0, 1, 32, 1000, 65536}[g.Intn(5)]
